@@ -2154,6 +2154,8 @@ def param_rule_call(a):
                  "with_capacity": lambda ex, av: ex.opq()},
                 log=("insert",), unroll=2, max_paths=40000)
     a.fns.append("rules::eval::eval_parameterized_rule_call")
+    GNC = struct_fields(a.src, "rules/exprs.rs", "GuardNamedRuleClause")
+    neg = field(ex, field(ex, ex.arg_env["_1"], PC.index("named_rule"), "GuardNamedRuleClause"), GNC.index("negation"), "bool")[1]
     bad, nins = [], 0
     for p in ex.paths:
         r = p.ret
@@ -2182,7 +2184,22 @@ def param_rule_call(a):
                 probs.append("argument stored under another parameter's name")
         if er:
             e = er[0]
-            ok = (len(er) == 1 and same(e[2][0], field(ex, prule, PR.index("rule"), "Rule")) and r == e[3])
+            ok = (len(er) == 1 and same(e[2][0], field(ex, prule, PR.index("rule"), "Rule")))
+            # the status returned: the called rule's own status - unless the call carries a prefix `not`, which (C03) is never ignored and
+            # means what it means for a rule name: PASS exactly when the call is not PASS
+            ctag, cst = e[3][2], e[3][3]["Ok"][2]
+            if r == e[3]:
+                ret_term = f"(not {neg})"
+            else:
+                rst = r[3].get("Ok")
+                rst = rst[2] if rst is not None and rst[0] == "enum" else None
+                # (a failing record hook - start_record / end_record returning Err - is passed on as an error)
+                rec_err = "(or false " + " ".join(f"(= {x[3][2]} 1)" for x in calls(p, "start_record") + calls(p, "end_record") if x[3][0] == "enum") + ")"
+                if rst is not None:
+                    ret_term = (f"(and {neg} (=> (= {ctag} 0) (or (and (= {r[2]} 0) (= {rst} (ite (= {cst} {a.P}) {a.F} {a.P}))) (and (= {r[2]} 1) {rec_err}))) "
+                                f"(=> (= {ctag} 1) (= {r[2]} 1)))")
+                else:
+                    ret_term = f"(and {neg} (= {r[2]} 1) (or (= {ctag} 1) {rec_err}))"
             ctx = e[2][1] if len(e[2]) > 1 else None
             if ctx is not None and ctx[0] == "struct":
                 mp = ctx[2].get("resolved_parameters")
@@ -2193,7 +2210,7 @@ def param_rule_call(a):
                 probs.append("the called rule is not evaluated in a context holding exactly the bound arguments")
             n_it = "(+ 0 0 " + " ".join(f"(ite (= {t} 1) 1 0)" for _k, _e, t, _i in its) + ")"
             params = field(ex, ex.arg_env["_1"], PC.index("parameters"), "Vec")
-            good = f"(and (= {n_it} {len(ins)}) (= {ex.len_of(names)} {ex.len_of(params)}))"
+            good = f"(and (= {n_it} {len(ins)}) (= {ex.len_of(names)} {ex.len_of(params)}) {ret_term})"
         else:
             good = f"(= {r[2]} 1)"
         bad.append(f"(and {pc_term(p.pc)} (not {'false' if probs else good}))")
@@ -2201,7 +2218,8 @@ def param_rule_call(a):
                 f"call of a parameterised rule with <= 2 arguments ({nins} bindings over all paths): an arity mismatch or a failing "
                 "argument query is an error and the rule is not evaluated; otherwise the k-th argument's value is bound to the k-th "
                 "parameter name, the called rule's body is evaluated once in a context holding exactly these bindings on top of the "
-                "caller's context, and its status is returned unchanged")
+                "caller's context; its status is returned unchanged - unless the call carries a prefix `not`: then the result is PASS exactly when "
+                "the call is Ok and not PASS (the negation is never ignored)")
     if c:
         c["replay"] = replay_param_rules(a)
         c["reproduced"] = c["replay"].get("reproduced", False)
@@ -2218,6 +2236,12 @@ def replay_param_rules(a):
     cases = [(defs + "rule t {\n  chk(a, b)\n}\n", "PASS"), (defs + "rule t {\n  chk(b, a)\n}\n", "FAIL"),
              (defs + "rule t {\n  chk(1, 2)\n}\n", "PASS"), (defs + "rule t {\n  chk(a, 3)\n}\n", "FAIL"),
              (defs + "let p = b\nrule t {\n  chk(a, b)\n}\n", "PASS"),
+             # prefix `not` on a call: PASS exactly when the call is not PASS
+             (defs + "rule t {\n  not chk(a, b)\n}\n", "FAIL"), (defs + "rule t {\n  not chk(b, a)\n}\n", "PASS"), (defs + "rule t {\n  !chk(a, b)\n}\n", "FAIL"),
+             (defs + "rule t {\n  NOT chk(a, 3)\n}\n", "PASS"), (defs + "rule t when not chk(b, a) {\n  a == 1\n}\n", "PASS"),
+             (defs + "rule t when not chk(a, b) {\n  a == 1\n}\n", "SKIP"),
+             ("rule sk(p) {\n  when %p == 9 {\n    %p == 1\n  }\n}\nrule t {\n  not sk(a)\n}\n", "PASS"),
+             ("rule sk(p) {\n  when %p == 9 {\n    %p == 1\n  }\n}\nrule t {\n  sk(a)\n  a == 1\n}\n", "PASS"),
              (defs + "rule t {\n  chk(a)\n}\n", "ERROR"), (defs + "rule t {\n  chk(a, b, a)\n}\n", "ERROR"),
              # an argument that selects nothing stays an empty selection inside the rule, also when an outer variable has the name
              ("rule isempty(p) {\n  %p empty\n}\nlet p = a\nrule t {\n  isempty(L[ this == 99 ])\n}\n", "PASS"),
@@ -4148,6 +4172,7 @@ SITES = {
     "C09": [report_partition, report_rule_listing, report_clause_content, report_combine_union, unary_empty_on_expr, param_ctx_end_record],
     "C10": [report_clause_content],
     "C15": [scope_resolution, scope_discipline, scope_delegations, variable_tables, param_rule_call, param_ctx_resolve],
+    "C03": [param_rule_call],
     "C04": [rule_status_semantics, root_scope_rule_table, scope_delegations, scope_resolution],
     "C01": [rule_status_semantics, root_scope_rule_table, scope_discipline, scope_resolution, scope_delegations, variable_tables],
     "C17": [merge_map, merge_unwrap, param_files_fold_step, data_input_params_wiring, structured_merge_closure, supported_extension_predicate],
